@@ -184,16 +184,25 @@ def run(ctx):
     pw = finder.pair_walk(ctx, facts, "C13-R1")
     HB = [pw[1].bb] if pw else []
     # ---- key constant --------------------------------------------------------------------
-    ki = facts.one(r"get_name_for_ref_kvp_key::REF_KVP_KEY as std::ops::Deref>::deref::__static_ref_initialize$")
     keyval = None
-    if ki is not None:
-        for c in ki.calls:
+    kbodies = [b for b in facts.non_test_bodies() if re.search(r"get_name_for_ref_kvp_key(::|$)", b.id)]
+    ki = None
+    for kb in kbodies:
+        for c in kb.calls:
             for a in c.args:
                 k = op_const(a)
                 if k and "str" in k:
-                    keyval = k["str"]
+                    keyval = k["str"] if keyval in (None, k["str"]) else "<several>"
+                    ki = kb
+        for bb in kb.reachable_blocks():
+            for st in kb.blocks[bb]["stmts"]:
+                if st["k"] == "assign" and st["rv"]["k"] == "use":
+                    k = op_const(st["rv"]["op"])
+                    if k and "str" in k:
+                        keyval = k["str"] if keyval in (None, k["str"]) else "<several>"
+                        ki = kb
     ctx.check(keyval == "ref", "C13-R1", "key-constant", "the reference key is `ref` (found %r)" % keyval, ki.where() if ki else "")
-    getk = f.calls_to(r"code_parser::get_name_for_ref_kvp_key$")
+    getk = f.calls_to(r"::get_name_for_ref_kvp_key$")
     ctx.check(len(getk) == 1, "C13-R1", "key-source", "the finder obtains the key once from get_name_for_ref_kvp_key()", f.where())
     # ---- R1 key search -----------------------------------------------------------------
     eqs = []
@@ -354,16 +363,17 @@ def run(ctx):
     if ctx.check(len(inner) == 1, "C13-R4", "anchor|inner-match", "the match over macro_args' pairs found", f.where()):
         bb, arms, otherwise, asr = inner[0]
         prod = g.produces("macro_args") if "macro_args" in g.rules else set()
-        ctx.check(prod <= set(arms) and "target_arg" in arms, "C13-R4", "inner-handles",
+        TR = gram.target_rule(g) or "target_arg"
+        ctx.check(prod <= set(arms) and TR in arms, "C13-R4", "inner-handles",
                   "every pair the grammar can put under macro_args is handled, including target_arg (grammar: %s; handled: %s)" % (sorted(prod), sorted(arms)), f.where(bb))
-        if "target_arg" in arms:
-            region = cfg.reach(f, [arms["target_arg"]], avoid=[bb])
+        if TR in arms:
+            region = cfg.reach(f, [arms[TR]], avoid=[bb])
             flag_sets = []
             for b2 in region:
                 for st in f.blocks[b2]["stmts"]:
-                    if st["k"] == "assign" and st["rv"]["k"] == "use" and (op_const(st["rv"]["op"]) or {}).get("int") == 1 and f.local_ty(st["dst"]["l"]) == "bool" and arms["target_arg"] in dom.get(b2, ()):
+                    if st["k"] == "assign" and st["rv"]["k"] == "use" and (op_const(st["rv"]["op"]) or {}).get("int") == 1 and f.local_ty(st["dst"]["l"]) == "bool" and arms[TR] in dom.get(b2, ()):
                         flag_sets.append(st["dst"]["l"])
-            ctx.check(len(flag_sets) == 1, "C13-R4", "target-flag", "seeing a target_arg pair records that a target is present", f.where(arms["target_arg"]))
+            ctx.check(len(flag_sets) == 1, "C13-R4", "target-flag", "seeing a target pair records that a target is present", f.where(arms[TR]))
             if len(flag_sets) == 1:
                 flag = flag_sets[0]
                 # the post-target span: Option<Span> local assigned Some(as_span(current pair)) under `flag && is_none`
